@@ -254,7 +254,10 @@ impl DcpsDomainParticipant {
         let status_condition = DcpsStatusCondition::default();
         let qos = match qos {
             QosKind::Default => self.domain_participant.default_topic_qos.clone(),
-            QosKind::Specific(q) => q,
+            QosKind::Specific(q) => {
+                q.is_consistent()?;
+                q
+            }
         };
 
         let topic_handle = InstanceHandle::new([
